@@ -372,6 +372,7 @@ __attribute__((noinline)) void run_zero(long id, const char *rname, const char *
         VF_CMP("q+Z", (q + au::ZERO).in(U{}), la + z);
         VF_CMP("q-Z", (q - au::ZERO).in(U{}), la - z);
         VF_CMP("Z+q", (au::ZERO + q).in(U{}), z + la);
+        if (!RawUB<R>::sub(z, a)) VF_CMP("Z-q", (au::ZERO - q).in(U{}), z - la);
         { Q q2 = q; R r2 = la; r2 += z; VF_CMP("q+=Z", (q2 += au::ZERO, q2.in(U{})), r2); }
         { Q q2 = q; R r2 = la; r2 -= z; VF_CMP("q-=Z", (q2 -= au::ZERO, q2.in(U{})), r2); }
         VF_CMP("Q{Z}", Q{au::ZERO}.in(U{}), z);
